@@ -263,6 +263,18 @@ func cmdCheck(args []string) int {
 	for _, n := range names {
 		obls = append(obls, results[n].Obls...)
 	}
+	// language obligations of the packages involved
+	pkgsSeen := map[string]bool{}
+	for _, n := range names {
+		pkgsSeen[byName[n].Pk.Name] = true
+	}
+	for pn := range pkgsSeen {
+		for _, ob := range w.LangObligations(w.Pkgs[pn]) {
+			if hasPropTag(ob.Tags, *prop) {
+				obls = append(obls, ob)
+			}
+		}
+	}
 	workers := runtime.NumCPU() / 3
 	if workers < 2 {
 		workers = 2
@@ -384,7 +396,7 @@ func cmdCheck(args []string) int {
 		bestOb := fs[0].ob
 		tries := 0
 		for _, f := range fs {
-			if f.ob.Result.Status != "sat" || tries >= 3 {
+			if f.ob.Result.Status != "sat" || tries >= 3 || f.ob.x == nil {
 				continue
 			}
 			tries++
